@@ -13,6 +13,8 @@ import (
 	"google.golang.org/protobuf/proto"
 	"google.golang.org/protobuf/reflect/protodesc"
 	"google.golang.org/protobuf/reflect/protoreflect"
+	"google.golang.org/protobuf/reflect/protoregistry"
+	"google.golang.org/protobuf/types/dynamicpb"
 	"google.golang.org/protobuf/types/descriptorpb"
 
 	starproto "go.starlark.net/lib/proto"
@@ -62,7 +64,12 @@ var (
 	c20sub   protoreflect.MessageDescriptor
 	c20color protoreflect.EnumDescriptor
 	c20shape protoreflect.EnumDescriptor
+	c20old   protoreflect.MessageDescriptor // proto2 message with an extension range
+	c20exts  []protoreflect.ExtensionDescriptor
 )
+
+// kinds of the extension fields of Old, by index in c20exts
+var c20extKinds = []string{"int32", "string", "uint64", "rep:int32"}
 
 type c20field struct {
 	name string
@@ -92,7 +99,7 @@ var c20allFields = func() []string {
 			out = append(out, f.name)
 		}
 	}
-	return append(out, "sub", "rec")
+	return append(out, "sub", "rec", "old")
 }()
 
 func c20descriptors() {
@@ -168,7 +175,43 @@ func c20descriptors() {
 			msg.NestedType = append(msg.NestedType, mapEntry(entry, field("", kk, opt, ""), vf))
 			msg.Field = append(msg.Field, field(f.name, "msg", rep, ".simtest.Msg."+entry))
 		}
+		// a proto2 file: a message with an extension range, and extensions of it
+		// (proto.set_field / get_field / has exist for these)
+		xf := func(name string, num int32, typ descriptorpb.FieldDescriptorProto_Type, label descriptorpb.FieldDescriptorProto_Label) *descriptorpb.FieldDescriptorProto {
+			return &descriptorpb.FieldDescriptorProto{Name: proto.String(name), Number: proto.Int32(num), Type: T(typ), Label: L(label), Extendee: proto.String(".simtest2.Old")}
+		}
+		extfd := &descriptorpb.FileDescriptorProto{
+			Name: proto.String("simext.proto"), Package: proto.String("simtest2"), Syntax: proto.String("proto2"),
+			MessageType: []*descriptorpb.DescriptorProto{{
+				Name:           proto.String("Old"),
+				Field:          []*descriptorpb.FieldDescriptorProto{{Name: proto.String("a"), Number: proto.Int32(1), Type: T(descriptorpb.FieldDescriptorProto_TYPE_INT32), Label: L(opt)}},
+				ExtensionRange: []*descriptorpb.DescriptorProto_ExtensionRange{{Start: proto.Int32(100), End: proto.Int32(200)}},
+			}},
+			Extension: []*descriptorpb.FieldDescriptorProto{
+				xf("ext_i", 100, descriptorpb.FieldDescriptorProto_TYPE_INT32, opt), xf("ext_s", 101, descriptorpb.FieldDescriptorProto_TYPE_STRING, opt),
+				xf("ext_u", 102, descriptorpb.FieldDescriptorProto_TYPE_UINT64, opt), xf("ext_r", 103, descriptorpb.FieldDescriptorProto_TYPE_INT32, rep),
+			},
+		}
+		extFile, err := protodesc.NewFile(extfd, nil)
+		if err != nil {
+			panic("c20 descriptors (ext): " + err.Error())
+		}
+		files := new(protoregistry.Files)
+		if err := files.RegisterFile(extFile); err != nil {
+			panic("c20 descriptors (ext): " + err.Error())
+		}
+		c20old = extFile.Messages().ByName("Old")
+		for i := 0; i < extFile.Extensions().Len(); i++ {
+			xd := extFile.Extensions().Get(i)
+			c20exts = append(c20exts, xd)
+			// known to the default resolver, so that unmarshal / unmarshal_text
+			// of a message carrying them give them back as fields
+			protoregistry.GlobalTypes.RegisterExtension(dynamicpb.NewExtensionType(xd))
+		}
+		n = 90
+		msg.Field = append(msg.Field, field("old", "msg", opt, ".simtest2.Old"))
 		fd := &descriptorpb.FileDescriptorProto{
+			Dependency: []string{"simext.proto"},
 			Name: proto.String("simtest.proto"), Package: proto.String("simtest"), Syntax: proto.String("proto3"),
 			MessageType: []*descriptorpb.DescriptorProto{sub, msg},
 			EnumType: []*descriptorpb.EnumDescriptorProto{{Name: proto.String("Color"), Value: []*descriptorpb.EnumValueDescriptorProto{
@@ -176,7 +219,7 @@ func c20descriptors() {
 				{Name: proto.String("Shape"), Value: []*descriptorpb.EnumValueDescriptorProto{
 					{Name: proto.String("CIRCLE"), Number: proto.Int32(0)}, {Name: proto.String("SQUARE"), Number: proto.Int32(2)}, {Name: proto.String("TRIANGLE"), Number: proto.Int32(9)}}}},
 		}
-		f, err := protodesc.NewFile(fd, nil)
+		f, err := protodesc.NewFile(fd, files)
 		if err != nil {
 			panic("c20 descriptors: " + err.Error())
 		}
@@ -201,6 +244,14 @@ func c20newMsg(d protoreflect.MessageDescriptor, field, val string) starlark.Val
 	m, err := starlark.Call(&starlark.Thread{Name: "mk"}, starproto.MessageDescriptor{Desc: d}, nil, []starlark.Tuple{{starlark.String(field), starlark.String(val)}})
 	if err != nil {
 		panic("c20newMsg: " + err.Error())
+	}
+	return m
+}
+
+func c20newMsgInt(d protoreflect.MessageDescriptor, field string, val int) starlark.Value {
+	m, err := starlark.Call(&starlark.Thread{Name: "mk"}, starproto.MessageDescriptor{Desc: d}, nil, []starlark.Tuple{{starlark.String(field), starlark.MakeInt(val)}})
+	if err != nil {
+		panic("c20newMsgInt: " + err.Error())
 	}
 	return m
 }
@@ -397,6 +448,12 @@ var c20pool = []c20val{
 	}, "{r}"},
 	{func() starlark.Value { return starlark.NewDict(0) }, "{}"},
 	{func() starlark.Value {
+		d := starlark.NewDict(1)
+		d.SetKey(starlark.String("a"), starlark.MakeInt(1))
+		return d
+	}, "{a:1}"},
+	{func() starlark.Value { return c20newMsgInt(c20old, "a", 3) }, "Old(a=3)"},
+	{func() starlark.Value {
 		d := starlark.NewDict(2)
 		d.SetKey(starlark.String("s"), starlark.String("ok-first"))
 		d.SetKey(starlark.String("n"), starlark.String("ill-typed-second"))
@@ -471,6 +528,8 @@ func c20valuesFor(field string) []int {
 		return byDesc("[Msg,Msg]", "[Msg,Msg]", "[Msg,Sub]", "Msg(f_string=..)")
 	case field == "rec":
 		return byDesc("Msg(f_string=..)")
+	case field == "old":
+		return byDesc("{a:1}", "{}", "Old(a=3)", "{a:1}")
 	case field == "m_bb":
 		return byDesc("{bool:bytes}")
 	case field == "m_i64u32":
@@ -519,6 +578,8 @@ func (c20) Generate(seed uint64, i int, tier string) *Scenario {
 		theme = 1
 	} else if r.Chance(1, 4) {
 		theme = 2
+	} else if r.Chance(1, 8) {
+		theme = 3
 	}
 	pickField := func(fs []c20field) string { return fs[r.Intn(len(fs))].name }
 	for j := 0; j < n; j++ {
@@ -531,7 +592,7 @@ func (c20) Generate(seed uint64, i int, tier string) *Scenario {
 		case m < 32:
 			op.Op, op.S = "set", pickField(c20maps)
 		case m < 36:
-			op.Op, op.S = "set", r.Pick([]string{"sub", "rec"})
+			op.Op, op.S = "set", r.Pick([]string{"sub", "rec", "old"})
 		case m < 41:
 			op.Op, op.S = "setsub", pickField(c20subScalars)
 		case m < 45:
@@ -575,6 +636,12 @@ func (c20) Generate(seed uint64, i int, tier string) *Scenario {
 			if r.Chance(1, 4) {
 				op.Op = "foreign"
 				op.Args = []int64{int64(r.Intn(5))}
+			} else if r.Chance(1, 3) {
+				op.Op = r.Pick([]string{"extset", "extset", "extget"})
+				op.Args = []int64{int64(r.Intn(4))}
+				if g := c20goodFor([]string{"int32", "string", "uint64", "int32"}[op.Args[0]]); r.Chance(1, 2) && len(g) > 0 {
+					op.B = int64(g[r.Intn(len(g))])
+				}
 			} else if r.Chance(1, 4) {
 				op.Op = "copywrong"
 				op.Args = []int64{int64(r.Intn(5))}
@@ -604,6 +671,32 @@ func (c20) Generate(seed uint64, i int, tier string) *Scenario {
 			op.Args = []int64{int64(from)}
 		} else if theme == 0 && r.Chance(1, 25) {
 			op.Op, op.S, op.Args = "setf", c20allFields[r.Intn(len(c20allFields))], nil
+		}
+		if theme == 3 {
+			// themed history "extension fields": give a message a proto2
+			// sub-message, set / read / unset its extensions, freeze, try again
+			op.Obj, op.A = r.Pick3(0, 0, 1), int64(r.Pick3(0, 0, 1))
+			switch m := r.Intn(100); {
+			case m < 25:
+				op.Op, op.S, op.Args = "set", "old", nil
+			case m < 65:
+				op.Op, op.S = "extset", ""
+				op.Args = []int64{int64(r.Intn(4))}
+				kinds := []string{"int32", "string", "uint64", "int32"}
+				if g := c20goodFor(kinds[op.Args[0]]); r.Chance(2, 3) && len(g) > 0 {
+					op.B = int64(g[r.Intn(len(g))])
+				} else if r.Chance(1, 3) {
+					op.B = 0 // None: unset
+				}
+			case m < 75:
+				op.Op, op.S, op.Args = "extget", "", []int64{int64(r.Intn(4))}
+			case m < 88:
+				op.Op, op.S, op.Args = "freeze", "", nil
+			case m < 94:
+				op.Op, op.S, op.Args = "roundtrip", "", nil
+			default:
+				op.Op, op.S, op.Args = "copy", "", nil
+			}
 		}
 		if theme == 2 {
 			// themed history "containers of every element type, assigned across
@@ -758,7 +851,7 @@ func (x *c20run) star(src string, env starlark.StringDict) (v starlark.Value, er
 	c20progMu.Lock()
 	pg := c20progs[src]
 	if pg == nil {
-		names := map[string]bool{"A": true, "B": true, "V": true, "K": true, "I": true, "Msg": true, "Sub": true, "Color": true, "Shape": true, "proto": true, "frz": true}
+		names := map[string]bool{"A": true, "B": true, "V": true, "K": true, "I": true, "Msg": true, "Sub": true, "Color": true, "Shape": true, "proto": true, "frz": true, "EXT": true, "Old": true}
 		_, p, cerr := starlark.SourceProgramOptions(allOn.FileOptions(), "op", src, func(n string) bool { return names[n] })
 		if cerr != nil {
 			c20progMu.Unlock()
@@ -987,10 +1080,12 @@ func expectScalar(kind string, v starlark.Value) string {
 			return "fail"
 		}
 		return "fail"
-	case "msg:Sub", "msg:Msg":
+	case "msg:Sub", "msg:Msg", "msg:Old":
 		md := c20sub
 		if kind == "msg:Msg" {
 			md = c20msg
+		} else if kind == "msg:Old" {
+			md = c20old
 		}
 		switch m := v.(type) {
 		case *starproto.Message:
@@ -1009,7 +1104,7 @@ func expectScalar(kind string, v starlark.Value) string {
 // sameScalar compares a value read back from a field with the value written.
 func sameScalar(kind string, got, want starlark.Value) bool {
 	switch kind {
-	case "msg:Sub", "msg:Msg":
+	case "msg:Sub", "msg:Msg", "msg:Old":
 		g, ok := got.(*starproto.Message)
 		w, ok2 := want.(*starproto.Message)
 		if wd, isDict := want.(*starlark.Dict); isDict {
@@ -1019,6 +1114,8 @@ func sameScalar(kind string, got, want starlark.Value) bool {
 			md := c20sub
 			if kind == "msg:Msg" {
 				md = c20msg
+			} else if kind == "msg:Old" {
+				md = c20old
 			}
 			fresh, err := starlark.Call(&starlark.Thread{Name: "expect"}, starproto.MessageDescriptor{Desc: md}, starlark.Tuple{wd}, nil)
 			if err != nil {
@@ -1093,6 +1190,9 @@ func fieldKind(name string) (kind string, shape string) {
 	if name == "rec" {
 		return "msg:Msg", "msg"
 	}
+	if name == "old" {
+		return "msg:Old", "msg"
+	}
 	return "", ""
 }
 
@@ -1104,6 +1204,7 @@ func (p c20) Run(sc *Scenario) *Result {
 	x.env = starlark.StringDict{
 		"Msg": starproto.MessageDescriptor{Desc: c20msg}, "Sub": starproto.MessageDescriptor{Desc: c20sub},
 		"Color": starproto.EnumDescriptor{Desc: c20color}, "Shape": starproto.EnumDescriptor{Desc: c20shape}, "proto": starproto.Module,
+		"Old": starproto.MessageDescriptor{Desc: c20old},
 	}
 	x.env["frz"] = starlark.NewBuiltin("frz", func(_ *starlark.Thread, _ *starlark.Builtin, args starlark.Tuple, _ []starlark.Tuple) (starlark.Value, error) {
 		if len(args) != 2 {
@@ -1405,7 +1506,7 @@ func (x *c20run) apply(op Op) {
 	nviol := len(x.res.Violations)
 	A, B := x.vars[op.Obj], x.vars[op.A]
 	V := c20pool[op.B].v()
-	env := starlark.StringDict{"A": A, "B": B, "V": V, "Msg": x.env["Msg"], "Sub": x.env["Sub"], "Color": x.env["Color"], "Shape": x.env["Shape"], "proto": x.env["proto"], "frz": x.env["frz"]}
+	env := starlark.StringDict{"A": A, "B": B, "V": V, "Msg": x.env["Msg"], "Sub": x.env["Sub"], "Color": x.env["Color"], "Shape": x.env["Shape"], "proto": x.env["proto"], "frz": x.env["frz"], "Old": x.env["Old"], "EXT": starlark.None}
 	targetFrozen := x.frozen[op.Obj]
 	run := func(src string) (starlark.Value, error) {
 		v, err, pv := x.star(src, env)
@@ -1766,6 +1867,62 @@ func (x *c20run) apply(op Op) {
 			}
 		}
 		_ = fd
+	case "extset", "extget":
+		// extension fields of the proto2 sub-message A.old, through proto.set_field / get_field / has
+		xi := int(op.Args[0]) % len(c20exts)
+		kind := c20extKinds[xi]
+		env["EXT"] = starproto.FieldDescriptor{Desc: c20exts[xi]}
+		fdOld := c20msg.Fields().ByName("old")
+		hadOld := A.Message().ProtoReflect().Has(fdOld)
+		if op.Op == "extget" {
+			_, err := run("R = (proto.get_field(A.old, EXT), proto.has(A.old, EXT))\n")
+			if len(x.res.Violations) == nviol && err != nil {
+				x.fail("read-back-failed", "proto.get_field / proto.has of an extension of A.old: %v", err)
+			}
+			return
+		}
+		_, err := run("def op():\n    proto.set_field(A.old, EXT, V)\nop()\nR = None\n")
+		if len(x.res.Violations) > nviol {
+			return
+		}
+		if hadOld && mustFailFrozen(err, "proto.set_field(m.old, ext, …)") {
+			return
+		}
+		if !hadOld {
+			if err == nil {
+				x.fail("mutation-of-frozen-message-succeeded", "proto.set_field on the default (unset, frozen) sub-message succeeded")
+			}
+			return
+		}
+		if targetFrozen {
+			return
+		}
+		read := func() starlark.Value {
+			r, gerr, pv := x.star("R = proto.get_field(A.old, EXT)\n", env)
+			if pv != nil {
+				x.fail("host-panic", "proto.get_field of an extension: %v", pv)
+			} else if gerr != nil {
+				x.fail("read-back-failed", "proto.get_field of an extension just set: %v", gerr)
+			}
+			return r
+		}
+		if V == starlark.None {
+			if err == nil {
+				if h, _, _ := x.star("R = proto.has(A.old, EXT)\n", env); h == starlark.True {
+					x.fail("lossy-assignment", "set_field(m.old, ext, None) succeeded but the extension is still present")
+				}
+			}
+			return
+		}
+		if strings.HasPrefix(kind, "rep:") {
+			if err == nil {
+				x.accepted++
+			} else {
+				x.rejected++
+			}
+			return
+		}
+		x.judgeScalar(kind, V, err, read)
 	case "foreign":
 		// a field descriptor of another message type: must be refused (an error,
 		// never a panic) and must leave the message as it was
